@@ -6,7 +6,7 @@ BANK_PLAIN = ["Inner", "Deep", "EmbedVal", "EmbedPtr", "Shadow", "EmbedUnexporte
               "MyFloat", "MyInts", "time.Time", "slog.Level", "MyInt8", "MyUint16", "MyUint", "MyInt64", "MyBool", "Levels", "Empty", "Markers", "IDt", "BaseT", "DocT", "DocP", "TwoEmb", "PtrInt", "PtrInner", "HoldsPtrs"]
 BANK_KNOWN = {"ShadowByTag": "D14", "Ambiguous": "D14", "EmbedTagged": "D16", "EmbedNonStruct": "D16", "BadTag": "D15",
               "WithMarshalers": "D13", "big.Int": "D13"}
-BANK_REC = ["Rec", "RecA", "PtrSelf", "PtrA"]
+BANK_REC = ["Rec", "RecA", "PtrSelf", "PtrA", "PtrIntoSelf", "PtrTail1", "PtrC1", "HoldsRho"]
 BANK_BAD = ["Handler", "IntKeyed", "MyChan", "TwoHandlers", "Handler"]
 GEN = {"names": [], "redeclared": set(), "embedding": set(), "embeds": {}}
 
